@@ -37,7 +37,7 @@ Section AbfResume.
     s_started s = true /\ s_started s' = true /\ 0 <= s_rel s /\ 0 <= s_rel s' /\
     s_cnt s = s_cnt s' /\ s_sum s = s_sum s' /\ s_bin s = s_bin s' /\ s_fbin s = s_fbin s' /\
     s_fabf s = s_fabf s' /\ s_fprev s = s_fprev s' /\ s_fold s = s_fold s' /\ s_eng s = s_eng s' /\
-    s_fj s = s_fj s' /\ s_japp s = s_japp s' /\
+    s_fj s = s_fj s' /\ s_japp s = s_japp s' /\ s_tfok s = true /\ s_tfok s' = true /\
     (forall k, measured c k = false -> vget O (s_ft s) k = vget O (s_ft s') k).
 
   (* what must agree: the bin, the ABF force computed and applied, the total force on the variables
@@ -48,7 +48,7 @@ Section AbfResume.
   Definition abf_out_eq (o o' : @abf_out T) : Prop :=
     abf_out_eq0 o o' /\ o_tf o = o_tf o' /\ o_cont o = o_cont o'.
 
-  Ltac prj := cbn [s_cnt s_sum s_bin s_fbin s_fabf s_fprev s_ft s_fold s_eng s_fj s_rel s_started s_japp
+  Ltac prj := cbn [s_cnt s_sum s_bin s_fbin s_fabf s_fprev s_ft s_fold s_eng s_fj s_rel s_started s_japp s_tfok
                    o_bin o_fabf o_fapp o_f o_rel o_cont o_tf i_x i_e i_o i_j i_boundary fst snd] in *.
 
   (* ---- two states that agree as abf_eqv demands, both past their first step, make the same step ---- *)
@@ -56,7 +56,7 @@ Section AbfResume.
     abf_eqv c (fst (abf_step O c s (no_boundary i))) (fst (abf_step O c s' (no_boundary i))) /\
     abf_out_eq (snd (abf_step O c s (no_boundary i))) (snd (abf_step O c s' (no_boundary i))).
   Proof.
-    intros (A1 & A2 & A3 & A4 & A5 & A6 & A7 & A8 & A9 & A10 & A11 & A12 & A13 & A15 & A14).
+    intros (A1 & A2 & A3 & A4 & A5 & A6 & A7 & A8 & A9 & A10 & A11 & A12 & A13 & A15 & A16 & A17 & A14).
     (* the two states are read through their fields only: no use is made of the shape of the record *)
     set (j := no_boundary i).
     assert (P : (0 <? fst (st_clk s j)) = true /\ (0 <? fst (st_clk s' j)) = true /\
@@ -66,13 +66,13 @@ Section AbfResume.
     destruct P as (P1 & P2 & P3 & P4 & P5 & P6).
     assert (Fa : forall k, addj c s k = addj c s' k) by (intros k; unfold addj; rewrite A15; reflexivity).
     assert (F0 : st_ft0 O c s j = st_ft0 O c s' j).
-    { unfold st_ft0. apply vbuild_ext. intros k Hk. rewrite P1, P2, Fa, A12, A13.
+    { unfold st_ft0. apply vbuild_ext. intros k Hk. rewrite P1, P2, Fa, A12, A13, A16, A17. cbn [andb].
       destruct (c_update c || bget (c_subtract c) k) eqn:E; [reflexivity|]. apply A14. exact E. }
     assert (F1 : st_ft O c s j = st_ft O c s' j).
-    { unfold st_ft. rewrite F0, P1, P2, A11. reflexivity. }
+    { unfold st_ft. rewrite F0, P1, P2, A11, A16, A17. reflexivity. }
     assert (F2 : st_fbin O c s j = st_fbin O c s' j) by (unfold st_fbin; rewrite A8; reflexivity).
     assert (F3 : st_doacc O c s j = st_doacc O c s' j).
-    { unfold st_doacc. cbn zeta. rewrite P1, P2, P3, P4, F2. reflexivity. }
+    { unfold st_doacc. cbn zeta. rewrite P1, P2, P3, P4, F2, A16, A17. reflexivity. }
     assert (F4 : st_sysf O c s j = st_sysf O c s' j).
     { unfold st_sysf. rewrite F1, A10. reflexivity. }
     assert (F5 : st_cnt O c s j = st_cnt O c s' j).
